@@ -136,7 +136,7 @@ def run_shard(ctx):
     def test(case):
         check_case(ctx, case)
 
-    runner.drive(ctx, test, ctx.n(1200, 30000))
+    runner.drive(ctx, test, ctx.n(2400, 40000))
 
 
 def replay(ctx, case):
